@@ -1,8 +1,67 @@
 import CM.Lib.Wire
-/-! Driver handler for C07 (stub: not built yet). -/
+import CM.Model.Bundle
+/-! Driver handler for C07: operation-sequence correspondence, and the model's prediction
+"usable after recovery?" for every crash point / failing operation; the executable spec is
+the property itself (usable; old bundle survives). -/
 namespace CM.Drv.C07
-open CM.Wire
+open CM.Wire CM.Bundle
 
-def handle (_args _impl : List String) : String := bad
+def oldCrt : Crt := { pub := 1, ser := 1, nb := 0 }
+
+def initSlots (init : String) : Slots :=
+  if init = "empty" then Slots.empty
+  else if init = "key" then { Slots.empty with key := some 1 }
+  else if init = "keycrt" then { Slots.empty with key := some 1, crt := some oldCrt }
+  else if init = "keymeta" then { Slots.empty with key := some 1, mta := some 1 }
+  else { key := some 1, crt := some oldCrt, mta := some 1, compromised := none }
+
+def showPart : Part → String
+  | .key => "key" | .crt => "crt" | .mta => "meta"
+
+def showCall : Call → String
+  | .exists p => "exists:" ++ showPart p
+  | .load p => "load:" ++ showPart p
+  | .store p => "store:" ++ showPart p
+  | .delete p => "delete:" ++ showPart p
+  | .lock => "lock"
+  | .unlock => "unlock"
+
+def showU (b : Bool) : String := if b then "usable" else "unusable"
+
+def handle (args impl : List String) : String :=
+  match args with
+  | ["seq", op, reuse, init] =>
+    let e : Env := { reuse := reuse = "1", fresh := 2, ser := 2, now := 10 }
+    let s := initSlots init
+    let calls := if op = "obtain" then obtainCalls e s else renewCalls s
+    reply (String.intercalate "," (calls.map showCall)) (if impl.isEmpty then "-" else "ok") (op ++ reuse ++ init)
+  | ["crash", op, reuse, init, j, od] =>
+    match j.toNat? with
+    | some j =>
+      let e : Env := { reuse := reuse = "1", fresh := 2, ser := 2, now := 10 }
+      let e' : Env := { reuse := reuse = "1", fresh := 3, ser := 3, now := 20 }
+      let s := initSlots init
+      let k := if op = "obtain" then obtainKey e s else renewKey e 1
+      let after := if op = "obtain" && hasAll s then s
+                   else applyFirst j (saveWrites k { pub := k, ser := 2, nb := 10 }) s
+      let u := usable (recover e' after)
+      let spec := match impl with
+        | [r] => if r = "usable" then "ok" else s!"bad:unrecoverable-after-crash op={op} reuse={reuse} stores={j}"
+        | _ => "-"
+      reply (showU u) spec s!"{op}{reuse}{init}:j{j}:od{od}"
+    | none => bad
+  | ["fail", op, reuse, init, _k, kindK, _errored, od] =>
+    let e' : Env := { reuse := reuse = "1", fresh := 3, ser := 3, now := 20 }
+    let s := initSlots init
+    -- whatever fails, the bundle is what it was (C07_failAt_restores); then recovery
+    let u := usable (recover e' s)
+    let spec := match impl with
+      | [r, surv] =>
+        if surv ≠ "1" then s!"bad:old-bundle-lost-after-failed-{op} at={kindK}"
+        else if r ≠ "usable" then s!"bad:unrecoverable-after-fault op={op} at={kindK}"
+        else "ok"
+      | _ => "-"
+    reply (showU u ++ " 1") spec s!"{op}{reuse}{init}:{kindK}:od{od}"
+  | _ => bad
 
 end CM.Drv.C07
